@@ -26,6 +26,7 @@ theorem demoDiamond_plain : PlainP demoDiamond demoDag := by
     · cases h
     · cases h; exact ⟨rfl, rfl⟩
   · intro _ _; exact ⟨rfl, rfl⟩
+  · intro _; rfl
 
 /-- Boolean form of `OracleOK` -/
 def oracleOKb (P : Program) (s : St) : Choice → Bool
